@@ -21,7 +21,7 @@ from .runner import (EXIT_HARNESS, EXIT_OK, EXIT_VIOLATION, WORKERS, HarnessFail
                      base_seed, fresh_interpreter, say, write_evidence, write_replay)
 
 TIERS = {
-    "quick": {"gen": 80, "refused": 16, "cli": 14, "dec_small": 18, "dec_big": 12, "dec_bad": 8,
+    "quick": {"gen": 80, "refused": 16, "cli": 24, "dec_small": 18, "dec_big": 12, "dec_bad": 8,
               "examples": "once", "reps": 8, "hist_len": 25, "families": 1},
     "thorough": {"gen": 900, "refused": 120, "cli": 80, "dec_small": 150, "dec_big": 24,
                  "dec_bad": 60, "examples": "many", "reps": 40, "hist_len": 30, "families": 6},
@@ -103,8 +103,13 @@ def build_pool(seed, tier):
             config = "string_configs:\n  strname_to_size:\n    A$: %d\n    D$(): %d\n    N$: %d\n" % (
                 r.choice((10, 64, 100)), r.choice((64, 80)), r.choice((5, 200)))
             text = '5 DIM A$,N$,D$(5)\n' + text
-        name = r.choice(("prog.bas", "a-b.bas", "x.bas", "Game_1.bas", "noext"))
-        add({"t": "cli", "text": text, "flags": flags, "name": name, "config": config},
+        name = r.choice(("prog.bas", "a-b.bas", "x.bas", "Game_1.bas", "noext", "#1.bas", "dir/prog.bas"))
+        if config is None and r.random() < 0.6:
+            # command lines commonly DIM the same few strings, under different -s values
+            text = '5 DIM A$,N$,D$(5)\n' + text
+        shape = r.random()
+        add({"t": "cli", "text": text, "flags": flags, "name": name, "config": config,
+             "stdin": shape < 0.25, "stdout": 0.15 < shape < 0.4},
             "cli%d" % i, "cli" + "".join(sorted(f for f in flags if f.startswith("-") and len(f) == 2)))
     # decoders
     for i in range(cfg["dec_small"]):
